@@ -484,8 +484,9 @@ def pipeline(prog: Program, rep) -> None:
     xn, yn, dn = [p for p in rs.params if p != "self"][:3]
     inner = f"self.trans_problem.restore_sol({xn}, {yn}, {dn})"
     ok_n = ok_s = False
-    for r in returns_of(rs):
-        v = fr.resolved(r, r.value)
+    from .common import value_sites
+    for r, e_ in value_sites(rs, fr):
+        v = fr.resolved(r, e_)
         facts = fr.at(r).facts
         els = [U(e) for e in v.elts] if isinstance(v, ast.Tuple) else []
         if ("is", "self.scaling", "None") in facts:
